@@ -154,7 +154,9 @@ inductive MergeErr where
 
 /-- `TableMerger.SchemaMerge` for the modelled family: at most one side changed the column list. -/
 def mergeCols (b o t : List Col) : Except MergeErr (List Col) :=
-  if o = b then .ok t
+  -- only theirs changed: ours' surviving columns in ours' order, theirs' new columns appended
+  -- (the schema merge cannot place a column: a column theirs has in the middle lands at the end)
+  if o = b then .ok (o.filter (fun c => t.contains c) ++ t.filter (fun c => !(o.contains c)))
   else if t = b then .ok o
   else if o = t then .ok o
   else .error .unsupported
@@ -228,19 +230,20 @@ whose rows differ. -/
 def diffRows (f t : List (Int × Row)) : List DiffRow :=
   (unionKeys ltInt (keys f) (keys t)).filterMap (fun k => diffKey k (get f k) (get t k))
 
-/-- one key of the diff of two tables with different column lists: dolt compares the stored tuples,
-so after a column was added at the end (NULL in every old row) an untouched row is equal, while a
-dropped column rewrites every row.  Modelled as: compare over the *union* layout `u`. -/
-def diffKeyU (fc tc u : List Col) (k : Int) (f t : Option Row) : Option DiffRow :=
+/-- the stored tuple of a row: trailing NULL fields are not stored -/
+def trimNulls (r : Row) : Row := (r.reverse.dropWhile (fun v => v = Val.null)).reverse
+
+/-- one key of the diff of two tables with different column lists: dolt compares the *stored tuples*
+(positionally, trailing NULLs not stored), so after a column was added at the end (NULL in every old
+row) an untouched row is equal, while dropping a column that is not last shifts the later fields and
+makes every row that has one `modified` — even when the dropped value was NULL. -/
+def diffKeyU (k : Int) (f t : Option Row) : Option DiffRow :=
   match f, t with
   | none, none => none
   | none, some tr => some ⟨k, .added, none, some tr⟩
   | some fr, none => some ⟨k, .removed, some fr, none⟩
   | some fr, some tr =>
-    if projRow fc u fr = projRow tc u tr then none else some ⟨k, .modified, some fr, some tr⟩
-
-/-- the union layout of two column lists: the from-columns, then the new to-columns -/
-def unionCols (fc tc : List Col) : List Col := fc ++ tc.filter (fun c => !(fc.contains c))
+    if trimNulls fr = trimNulls tr then none else some ⟨k, .modified, some fr, some tr⟩
 
 def diffTables (f t : Option Table) : List DiffRow :=
   match f, t with
@@ -251,7 +254,7 @@ def diffTables (f t : Option Table) : List DiffRow :=
     if ft.cols = tt.cols then diffRows ft.rows tt.rows
     else
       (unionKeys ltInt (keys ft.rows) (keys tt.rows)).filterMap (fun k =>
-        diffKeyU ft.cols tt.cols (unionCols ft.cols tt.cols) k (get ft.rows k) (get tt.rows k))
+        diffKeyU k (get ft.rows k) (get tt.rows k))
 
 /-! ## patches: `dolt_patch(a, b)` as a statement list, and its execution -/
 
